@@ -52,7 +52,7 @@ Print Assumptions C15_declared_is_contained.
    never a success *)
 Theorem C15_unissuable_is_error_partial : forall cl r s c subj styp actor req scopes aud,
   op_unconfused (Exchange r c subj styp actor req scopes aud) = true ->
-  C15_spec.issuable (policy (fst s)) req && negb (string_in "veto" scopes) && subj_live false (fst s) styp subj && actor_live (fst s) actor = false ->
+  C15_spec.issuable (policy (fst s)) req && negb (vetoed (policy (fst s)) scopes) && subj_live false (fst s) styp subj && actor_live (fst s) actor = false ->
   exists st, snd (exchange cl r s c subj styp actor req scopes aud) = OErr st true /\ C15_spec.is_error st = true.
 Proof. exact unissuable_is_error. Qed.
 Print Assumptions C15_unissuable_is_error_partial.
@@ -122,3 +122,19 @@ Theorem C15_act_policies_differ : forall p, p_act p = ActNone -> decided_act p t
   (forall q, p_act q = ActDefault -> decided_act q true "bob" = "bob" /\ decided_act q false "bob" = "").
 Proof. exact act_policies_differ. Qed.
 Print Assumptions C15_act_policies_differ.
+
+(* Round 8: a storage veto is answered with an OAuth error and never a success - at WHICHEVER hook
+   the storage refuses: in ValidateTokenExchangeRequest (scope "veto") or in the second hook
+   CreateTokenExchangeRequest (requests whose decided scopes contain "late", refused with a plain
+   error or with an OAuth error, as the storage policy p_late says); every policy, both routers,
+   whatever else the request carries. *)
+Theorem C15_storage_veto_is_error : forall cl r s c subj styp actor req scopes aud,
+  vetoed (policy (fst s)) scopes = true ->
+  exists st, snd (exchange cl r s c subj styp actor req scopes aud) = OErr st true /\ C15_spec.is_error st = true.
+Proof. exact veto_is_error. Qed.
+Print Assumptions C15_storage_veto_is_error.
+
+Theorem C15_late_veto_nonvacuous :
+  forall pol, p_late pol <> LateNone -> p_empty pol = false -> vetoed pol ["openid"; "late"] = true.
+Proof. exact late_veto_nonvacuous. Qed.
+Print Assumptions C15_late_veto_nonvacuous.
